@@ -950,7 +950,7 @@ impl UserHeader {
     fn parse_payment_release_info(value: &str) -> Option<PaymentReleaseInfo> {
         if value.len() >= 3 {
             let code = value[0..3].to_string();
-            let additional_info = if value.len() > 4 && value.chars().nth(3) == Some('/') {
+            let additional_info = if value.len() >= 4 && value.chars().nth(3) == Some('/') {
                 Some(value[4..].to_string())
             } else {
                 None
@@ -968,7 +968,7 @@ impl UserHeader {
     fn parse_sanctions_screening_info(value: &str) -> Option<SanctionsScreeningInfo> {
         if value.len() >= 3 {
             let code_word = value[0..3].to_string();
-            let additional_info = if value.len() > 4 && value.chars().nth(3) == Some('/') {
+            let additional_info = if value.len() >= 4 && value.chars().nth(3) == Some('/') {
                 Some(value[4..].to_string())
             } else {
                 None
@@ -986,7 +986,7 @@ impl UserHeader {
     fn parse_payment_controls_info(value: &str) -> Option<PaymentControlsInfo> {
         if value.len() >= 3 {
             let code_word = value[0..3].to_string();
-            let additional_info = if value.len() > 4 && value.chars().nth(3) == Some('/') {
+            let additional_info = if value.len() >= 4 && value.chars().nth(3) == Some('/') {
                 Some(value[4..].to_string())
             } else {
                 None
